@@ -48,6 +48,22 @@ def zint(x):
     return z3.IntVal(x) if isinstance(x, int) else x
 
 
+def guarded_check(solver, seconds, *assumptions):
+    """solver.check with a watchdog: some sequence / non-linear queries ignore both `timeout` and `rlimit`;
+    the context is interrupted from a timer thread and the result is `unknown`"""
+    import threading
+    ctx = solver.ctx
+    timer = threading.Timer(seconds, ctx.interrupt)
+    timer.daemon = True
+    timer.start()
+    try:
+        return solver.check(*assumptions)
+    except z3.Z3Exception:
+        return z3.unknown
+    finally:
+        timer.cancel()
+
+
 class Obligation:
     def __init__(self, name, kind, pc, goal, line, path_id, func):
         self.name = name
@@ -82,6 +98,7 @@ class Path:
         self.pc = []
         self.solver = z3.Solver()
         self.solver.set('timeout', feas_timeout_ms)
+        self.solver.set('rlimit', 3000000)          # deterministic resource bound: some queries ignore the timeout
         self.obligations = []
         self.counter = itertools.count()
         self.instances = {}
@@ -117,10 +134,7 @@ class Path:
         self.solver.add(t)
 
     def feasible(self, cond):
-        try:
-            r = self.solver.check(cond)
-        except z3.Z3Exception:
-            r = z3.unknown
+        r = guarded_check(self.solver, 6.0, cond)
         if r == z3.unknown:
             self.unknown_feas += 1
         return r != z3.unsat
@@ -398,12 +412,12 @@ class Interp:
                 return t2.as_long()
         try:
             s = self.path.solver
-            if s.check() != z3.sat:
+            if guarded_check(s, 6.0) != z3.sat:
                 return None
             v = s.model().eval(t, model_completion=True)
             if not z3.is_int_value(v) or abs(v.as_long()) > 4096:
                 return None
-            if s.check(t != v) == z3.unsat:
+            if guarded_check(s, 6.0, t != v) == z3.unsat:
                 return v.as_long()
         except z3.Z3Exception:
             pass
@@ -645,10 +659,7 @@ class Interp:
             return True
         if z3.is_false(c):
             return False
-        try:
-            return self.path.solver.check(z3.Not(c)) == z3.unsat
-        except z3.Z3Exception:
-            return False
+        return guarded_check(self.path.solver, 6.0, z3.Not(c)) == z3.unsat
 
     def norm_index(self, i, n):
         """python slice-bound normalisation (clamped); simplified under the path condition"""
@@ -1148,6 +1159,12 @@ class Interp:
             if fr.old is None:
                 raise OutOfSubset('old() without pre-state')
             return self.ev(node.args[0], fr.old)
+        if isinstance(node.func, ast.Name) and node.func.id == 'at_entry' and fr.spec:
+            k_ = ast.literal_eval(node.args[1])
+            en = getattr(fr, 'entries', {}).get(k_)
+            if en is None:
+                raise OutOfSubset('at_entry(.., %r): loop %r has not been entered' % (k_, k_))
+            return self.ev(node.args[0], en)
         if isinstance(node.func, ast.Name) and node.func.id == 'at_head' and fr.spec:
             if len(node.args) > 1:
                 k_ = ast.literal_eval(node.args[1])
@@ -1793,6 +1810,7 @@ class Interp:
         sf.target_module = fr.module
         sf.head = getattr(fr, 'head', None)
         sf.heads = getattr(fr, 'heads', {})
+        sf.entries = getattr(fr, 'entries', {})
         return sf
 
     def check_invariants(self, spec, fr, kind, name, st):
@@ -1814,6 +1832,9 @@ class Interp:
     def st_While(self, st, fr):
         k, spec = self.loop_annotation(fr, st)
         name = 'loop%d' % k
+        if not hasattr(fr, 'entries'):
+            fr.entries = {}
+        fr.entries[k] = self.snapshot_frame(self.spec_frame(fr))
         self.check_invariants(spec, fr, 'init', name, st)
         self.havoc_loop_state(st, fr, name)
         self.assume_invariants(spec, fr)
@@ -1903,6 +1924,9 @@ class Interp:
             raise OutOfSubset('for over %r' % (it,))
         idx_name = '_i%d' % k
         fr.locals[idx_name] = VInt(lo)
+        if not hasattr(fr, 'entries'):
+            fr.entries = {}
+        fr.entries[k] = self.snapshot_frame(self.spec_frame(fr))
         self.check_invariants(spec, fr, 'init', name, st)
         self.havoc_loop_state(st, fr, name)
         i = self.path.fresh_int(name + '.idx')
@@ -2021,7 +2045,10 @@ class Interp:
                     self.path.assume(z3.Not(self.truth(self.ev(rc.when, cf.old_spec()))))
             res = self.fresh_result(contract, func, cf)
             cf.locals['result'] = res
+            forget = self.current_contract.forget if self.current_contract is not None else ()
             for e in contract.ensures:
+                if forget and any(isinstance(n_, ast.Name) and n_.id in forget for n_ in ast.walk(e)):
+                    continue            # the caller's proof does not need this fact (assuming less is sound)
                 self.path.assume(self.truth(self.ev(e, cf)))
             # objects the callee may write satisfy their class invariant again when it returns (proved at its exits)
             for a in contract.assigns:
@@ -2031,6 +2058,8 @@ class Interp:
                     ifr.spec = True
                     ifr.old = ifr
                     for inv in self.reg.class_invariants(tgt.cls):
+                        if forget and any(isinstance(n_, ast.Name) and n_.id in forget for n_ in ast.walk(inv)):
+                            continue
                         self.path.assume(self.truth(self.ev(inv, ifr)))
             if not self.path.feasible(z3.BoolVal(True)):
                 raise PathEnd()
